@@ -39,6 +39,8 @@ ExportBase(o, base) ==
          <<KW("ktensor"), INT(Len(o.U))>> \o Ints([k \in 1..Len(o.U) |-> Len(o.U[k])]) \o <<INT(Len(o.w))>>
          \o Vals(o.w) \o Flat([k \in 1..Len(o.U) |-> ExportMatrix(o.U[k])])
     [] o.kind = "matrix" -> ExportMatrix(o.m)
+    [] o.kind = "array" ->      \* a plain array that is not 2-way: the matrix keyword, its own shape, last index fastest
+         <<KW("matrix"), INT(Len(o.shape))>> \o Ints(o.shape) \o Vals(o.v)
 Export(o) == ExportBase(o, 1)
 
 \* import: the inverse reading of a token sequence
@@ -65,7 +67,8 @@ Import(ts, base) ==
              LET R == TInt(ts[3 + N])
              IN  [kind |-> "ktensor", w |-> [r \in 1..R |-> TVal(ts[3 + N + r])],
                   U |-> ImportFactors(ts, 4 + N + R, N)]
-        [] kw = "matrix" -> [kind |-> "matrix", m |-> ImportMatrix(ts, 1)[1]]
+        [] kw = "matrix" -> IF N = 2 THEN [kind |-> "matrix", m |-> ImportMatrix(ts, 1)[1]]
+                            ELSE [kind |-> "array", shape |-> sh, v |-> [k \in 1..Prod(sh) |-> TVal(ts[2 + N + k])]]
 
 \* first failing clause or "ok"
 IoWhy(op, a, res) ==
